@@ -219,7 +219,13 @@ def build(gtype, g):
             return CompleteBipartiteGraph(g['L'], g['R'])
         G = BipartiteGraph(g['L'], g['R'])
     elif gtype == 'simple':
-        G = Graph(g['n'])
+        if len(g['edges']) % 3 == 2 and g['n'] >= 2:
+            # a graph object with a history: all vertices but one added by a
+            # single update_vertex_number call (as `splitedges k` does)
+            G = Graph(1)
+            G.update_vertex_number(g['n'])
+        else:
+            G = Graph(g['n'])
     else:
         G = DirectedGraph(g['n'])
     for u, v in g['edges']:
